@@ -152,6 +152,15 @@ impl TwinEngine {
         if history.iter().any(allocator_call) {
             st.events.insert("split.allocator_used");
         }
+        if self.kind == TwinKind::SaveLoad {
+            let p = tmp_file("sz");
+            if let Ok(sz) = r1.g.save(&p) {
+                if [4096usize, 65_536, 131_072, 1 << 20].contains(&sz) {
+                    st.events.insert("split.image_size_exactly_a_block_multiple");
+                }
+            }
+            let _ = std::fs::remove_file(&p);
+        }
         let with_unread = r1.m.groups.keys().filter(|g| r1.m.unread_in_group(**g) >= 1).count();
         if with_unread >= 8 {
             st.events.insert("split.8plus_groups_with_unread");
@@ -166,6 +175,7 @@ impl TwinEngine {
         };
         let mut r2 = Runner {
             cfg,
+            snapshot: None,
             g: g2,
             m: r1.m.clone(),
             hist: r1.hist.clone(),
@@ -437,6 +447,30 @@ impl Engine for TwinEngine {
         }
         if closed {
             return CaseReport { events: vec!["history_closed"], evaluations: 1, ..Default::default() };
+        }
+        // C08: one case in ~150 pads the image to an exact size around a block boundary by giving
+        // one vertex a datum of the right length (sizes 4096, 65536, 131072 and 1 MiB, -1/0/+1)
+        if self.kind == TwinKind::SaveLoad && case.variant % 96 == 5 && case.hist.profile_sel % 3 != 0 {
+            if let Some(v) = r.m.alive().first().copied() {
+                let probe = Call::Put(v, vec![0x5A; 9]);
+                if r.valid(&probe) {
+                    r.step(&probe);
+                    history.push(probe);
+                    let p = tmp_file("size");
+                    let s9 = r.g.save(&p).unwrap_or(0);
+                    let _ = std::fs::remove_file(&p);
+                    const T: [usize; 4] = [4096, 65_536, 131_072, 1 << 20];
+                    // mostly the two smaller sizes; the large ones make every observation expensive
+                    let ti = match case.hist.order_sel % 16 { 0 => 3, 1 => 2, x if x % 2 == 0 => 1, _ => 0 };
+                    let target = T[ti] + [0usize, 1, 2][(case.hist.order_sel as usize >> 4) % 3] - 1;
+                    if s9 > 0 && target >= s9 {
+                        let len = target - s9 + 9;
+                        let pad = Call::Put(v, (0..len).map(|i| (i as u8) | 1).collect());
+                        r.step(&pad);
+                        history.push(pad);
+                    }
+                }
+            }
         }
         let mode = match self.kind {
             TwinKind::SaveLoad | TwinKind::Script { .. } => 0,
